@@ -51,17 +51,22 @@ BaseVariant(c) == Var("base", [p \in 1..c.n |-> NKey(FALSE, p - 1)], IdSeq(c.n),
 
 \* the result of THIS presentation under the open finding itpGlobal (a function of the order of the files only)
 ItpRisk(F) == (\E f \in DOMAIN F.files : F.files[f].syn = "itp") /\ (\E i \in DOMAIN F.links : \E q \in DOMAIN F.links[i].inters : F.links[i].inters[q].ver # 1)
-WithItp(c, v) == LET o == IF ItpRisk(FFof(c)) THEN LET L == Loaded(FFof(c), v.files, TRUE) IN PRun(c, L, FreshBx(FFof(c), L)).out ELSE PResTab[c]
-                 IN [var |-> v, itpdiffers |-> o # PResTab[c], itpout |-> IF o # PResTab[c] THEN OutJ(o) ELSE OutJ(ErrOut(""))]
+ItpTab(c, vs) == LET F == FFof(c)
+                     Ls == IF ItpRisk(F) THEN {Loaded(F, v.files, TRUE) : v \in vs} ELSE {}
+                 IN [L \in Ls |-> PRun(c, L, FreshBx(F, L)).out]
+WithItp(c, v, tab, exp) == LET o == IF ItpRisk(FFof(c)) THEN tab[Loaded(FFof(c), v.files, TRUE)] ELSE exp
+                           IN [var |-> v, itpdiffers |-> o # exp, itpout |-> IF o # exp THEN OutJ(o) ELSE OutJ(ErrOut(""))]
 \* one record per case
-ExportCases == \A c \in Cases : PrintT(<<"CASE", ToJson([case |-> CaseJ(c), expected |-> OutJ(PResTab[c]), base |-> WithItp(c, BaseVariant(c)),
-                                                         variants |-> LET sq == SetToSeq(Variants(c) \ {BaseVariant(c)}) IN [k \in DOMAIN sq |-> WithItp(c, sq[k])]])>>)
-ExportFFs == PrintT(<<"FFS", ToJson([i \in DOMAIN FFs |-> FFJ(FFs[i])])>>)
+\* (bound variables hold evaluated values; LET definitions would be re-evaluated inside the lazily built sequence)
+ExportCases == \A c \in Cases : \A exp \in {PResult(c)} : \A vs \in {Variants(c) \cup {BaseVariant(c)}} : \A tab \in {ItpTab(c, vs)} : \A sq \in {SetToSeq(vs \ {BaseVariant(c)})} :
+   PrintT(<<"CASE", ToJson([case |-> CaseJ(c), expected |-> OutJ(exp), base |-> WithItp(c, BaseVariant(c), tab, exp),
+                            variants |-> [k \in DOMAIN sq |-> WithItp(c, sq[k], tab, exp)]])>>)
+ExportFFs(x) == PrintT(<<"FFS", ToJson([i \in DOMAIN FFs |-> FFJ(FFs[i])])>>)
 \* which pairs of definitions (positions in the base order) keep their relative order, per force field (documentation of the domain)
-ExportDomain == PrintT(<<"KEEP", ToJson([i \in DOMAIN FFs |-> SetToSeq(MustKeep(FFs[i]))])>>)
+ExportDomain(x) == PrintT(<<"KEEP", ToJson([i \in DOMAIN FFs |-> SetToSeq(MustKeep(FFs[i]))])>>)
 
 \* (1) is evaluated once, on the first state
-ExportOnce == (s.pc = "load" /\ case = CHOOSE c \in Cases : \A d \in Cases : c.id <= d.id) => (ExportFFs /\ ExportDomain /\ ExportCases)
+ExportOnce == (s.pc = "load" /\ case = CHOOSE c \in Cases : \A d \in Cases : c.id <= d.id) => (ExportFFs(0) /\ ExportDomain(0) /\ ExportCases)
 \* (2) every terminal state of the I-layer under the deviations of the open findings
 Stop == FALSE /\ UNCHANGED vars
 ExportDevRes == s.pc = "done" => PrintT(<<"DEVRES", ToJson([id |-> case.id, out |-> OutJ(s.out), fired |-> SetToSeq(s.fired)])>>)
